@@ -143,7 +143,7 @@ func (s *serverSocket) onPacket(header *parser.PacketHeader, eventName string, d
 		}
 
 		for _, handler := range s.eventHandlers.getAll(eventName) {
-			s.onEvent(handler, header, decode, sendAck)
+			s.onEvent(eventName, handler, header, decode, sendAck)
 		}
 	case parser.PacketTypeAck, parser.PacketTypeBinaryAck:
 		s.onAck(header, decode)
@@ -162,6 +162,7 @@ func (s *serverSocket) onDisconnect() {
 }
 
 func (s *serverSocket) onEvent(
+	eventName string,
 	handler *eventHandler,
 	header *parser.PacketHeader,
 	decode parser.Decode,
@@ -184,7 +185,15 @@ func (s *serverSocket) onEvent(
 		return
 	}
 
-	err = s.callMiddlewares(values)
+	ack, _ := handler.ack()
+
+	// Middlewares receive the name of the event and its arguments
+	// (without the acknowledgement function of the handler).
+	mwArgs := values
+	if ack {
+		mwArgs = values[:len(values)-1]
+	}
+	err = s.callMiddlewares(eventName, mwArgs)
 	if err != nil {
 		s.onError(err)
 		return
@@ -195,7 +204,6 @@ func (s *serverSocket) onEvent(
 		return
 	}
 
-	ack, _ := handler.ack()
 	if header.ID != nil && ack {
 		hasAckFunc = true
 
